@@ -453,6 +453,7 @@ func c05Stream(c *EnumCtx) {
 		{Seq: 1, Mtype: 1, Method: "/a", Codec: 'j', Body: []byte(`{"x":1}`)},
 		{Seq: 2, Mtype: 2, Method: "/a", Stat: [3]string{"500", "m", "c"}},
 		{Seq: 3, Mtype: 3, Method: "/p", Meta: [][2]string{{"k", "v"}, {"k", "w"}}, Codec: 'j', Body: []byte(`"s"`)},
+		{Seq: 7, Mtype: 1, Method: "/e", Meta: [][2]string{{"debug", ""}, {"k", "x"}, {"dry", ""}}, Codec: 'j', Body: []byte(`1`)},
 		{Seq: -4, Mtype: 1, Method: "/g", Codec: 'j', Body: bytes.Repeat([]byte("z"), 300), Pipe: []byte{'g'}},
 		{Seq: 5, Mtype: 2, Method: "", Codec: 0, Body: nil},
 		{Seq: 6, Mtype: 1, Method: "/m", Codec: 'p', Body: []byte{0, 1, 2, 255}, Pipe: []byte{'m'}},
@@ -566,6 +567,22 @@ func c05StreamCase(c *EnumCtx, spec protoSpec, alphabet []mmsg, sq []int) {
 		c.Evaluations++
 	}
 	decode([]int{0}, "unchunked")
+	// the receiver may reuse one message object for every frame (Reset in between), as the session layer does
+	func() {
+		pr := spec.pf(&memRW{r: bytes.NewReader(stream)})
+		in := socket.NewMessage()
+		for k, i := range sq {
+			in.Reset(socket.WithNewBody(func(socket.Header) interface{} { return new([]byte) }))
+			if err := pr.Unpack(in); err != nil {
+				c.Fail(spec.name+": stream loses frame sync (reused message)", fmt.Sprintf("%s frame#%d", name, k), err.Error())
+				return
+			}
+			if d := sameMsg(expectOf(alphabet[i]), extract(in)); d != "" {
+				c.Fail(spec.name+": a frame decoded into a reused message differs from the frame sent: "+fieldOf(d), fmt.Sprintf("%s frame#%d", name, k), d)
+				return
+			}
+		}
+	}()
 	n := len(stream)
 	lim := n
 	if lim > 400 {
